@@ -1313,6 +1313,10 @@ static int dd_ctor_dtor_name(struct demangle_data *dd)
 	if (dd->type)
 		return ret;
 
+	/* a ctor/dtor code without a preceding name: nothing to repeat */
+	if (dd->new == NULL)
+		return -1;
+
 	/* repeat last name after '::' */
 	pos = strrchr(dd->new, ':');
 	if (pos == NULL)
